@@ -555,7 +555,7 @@ pub fn parse(bytes: &[u8]) -> Result<Parsed, String> {
     if root.size % 64 != 0 {
         p.rule("R22-ministream-size", format!("root size {} is not a multiple of 64", root.size));
     }
-    if (ms_chain.len() * sl) as u64 <= root.size.saturating_sub(1) && root.size > 0 {
+    if ((ms_chain.len() as u64).saturating_mul(sl as u64)) <= root.size.saturating_sub(1) && root.size > 0 {
         p.rule("R22-ministream-capacity", format!("mini stream chain of {} sectors cannot hold {} bytes", ms_chain.len(), root.size));
     }
     let mini_count = (root.size / 64) as usize;
@@ -692,7 +692,7 @@ pub fn parse(bytes: &[u8]) -> Result<Parsed, String> {
                 }
             } else if size >= 4096 {
                 let (ch, ok) = p.chain(e.start);
-                let need = ((size + sl as u64 - 1) / sl as u64) as usize;
+                let need = (size / sl as u64 + (size % sl as u64 != 0) as u64) as usize;
                 if !ok {
                     p.rule("R15-stream-chain", format!("chain of stream entry {} from {:#x} is broken", id, e.start));
                 }
@@ -702,7 +702,7 @@ pub fn parse(bytes: &[u8]) -> Result<Parsed, String> {
                 claim(&mut p, &mut owners, &ch, &who);
             } else {
                 let (ch, ok) = p.mini_chain(e.start);
-                let need = ((size + 63) / 64) as usize;
+                let need = (size / 64 + (size % 64 != 0) as u64) as usize;
                 if !ok {
                     p.rule("R17-mini-chain", format!("mini chain of stream entry {} from {:#x} is broken", id, e.start));
                 }
